@@ -330,7 +330,19 @@ func streamRoles(c *Ctx, row entRow, h *ssa.Function) {
 			ok = isAddrOf(in.E, "Sender")
 		case "SendCoinsFromModuleToAccount":
 			// claim pays the receiver; the cancel refund pays the sender
-			if fn(in.Eff.Fn) == "(x/stream/keeper.Keeper).CancelStreamBySenderReceiver" || refundSite(c, in.Eff) {
+			// (a payout made on a route through the claim step is a claim; any other module-to-account transfer is the refund)
+			viaClaim := false
+			for _, g := range claimSteps(c) {
+				if in.Eff.Fn == g {
+					viaClaim = true
+				}
+				for _, ci := range in.Chain {
+					if ci.Parent() == g {
+						viaClaim = true
+					}
+				}
+			}
+			if !viaClaim {
 				want = "refunds are paid to addr(msg.Sender)"
 				ok = isAddrOf(in.E, "Sender")
 			} else {
